@@ -620,7 +620,46 @@ impl Property for C17 {
         cfg.strings = rng.pct(85);
         cfg.doubles = rng.pct(40);
         cfg.size = *rng.pick(&[2usize, 3, 5, 8]);
-        let prog = gen_program(rng, cfg.clone());
+        let mut prog = gen_program(rng, cfg.clone());
+        if rng.pct(12) {
+            // targets whose type comes from DEFtype, with names that end in a digit
+            let ty = *rng.pick(&[Ty::Str, Ty::Str, Ty::Int, Ty::Dbl, Ty::Sng]);
+            let mut targets = vec![LVal::scalar("T1")];
+            if rng.pct(60) {
+                targets.push(LVal::arr("T2", vec![Expr::Int(rng.range(0, 3) as i16)]));
+            }
+            if rng.pct(40) {
+                targets.insert(0, LVal::scalar("N%"));
+            }
+            let mut items = vec![];
+            for t in &targets {
+                items.push(PItem::E(Expr::Str("<".into())));
+                items.push(PItem::Semi);
+                items.push(PItem::E(Expr::L(Box::new(t.clone()))));
+                items.push(PItem::Semi);
+            }
+            items.push(PItem::E(Expr::Str(">".into())));
+            prog = Program {
+                lines: vec![
+                    Line {
+                        num: 10,
+                        stmts: vec![Stmt::DefType(ty, 'T', 'T')],
+                    },
+                    Line {
+                        num: 20,
+                        stmts: vec![Stmt::Input {
+                            nocaps: rng.pct(30),
+                            prompt: if rng.pct(50) { Some("V".into()) } else { None },
+                            targets,
+                        }],
+                    },
+                    Line {
+                        num: 30,
+                        stmts: vec![Stmt::Print { q: false, items }],
+                    },
+                ],
+            };
+        }
         let mut case = base_case(rng, prog, "C17");
         if rng.pct(25) {
             // INPUT in direct mode
@@ -665,7 +704,7 @@ impl Property for C17 {
         }
     }
     fn rule(&self) -> &'static str {
-        "one evaluation = a generated program with over-sampled INPUT statements (with / without prompt, leading-comma form, 1-5 targets of every type, array targets whose subscript is an earlier target of the same statement, inside loops, subroutines and IF branches, and in direct mode) answered by synthesised replies of three classes per field: clearly valid (decimal, sign, fraction, E/D exponent, & octal, &H hex, blanks around, empty = 0; strings bare, quoted, with commas inside quotes, padded), clearly invalid (letters, two numbers, out of Integer range, 256 characters) and structural (too few / too many fields); up to two bad replies precede an accepted one; the event sequence Input(prompt? , caps) {REDO, same Input}* and everything printed afterwards must equal RefBASIC's; distinct = distinct API/event log fingerprint"
+        "one evaluation = a generated program with over-sampled INPUT statements (with / without prompt, leading-comma form, 1-5 targets of every type, array targets whose subscript is an earlier target of the same statement, inside loops, subroutines and IF branches, in direct mode, and into unsuffixed names ending in a digit whose type comes from DEFSTR/DEFINT/DEFDBL) answered by synthesised replies of three classes per field: clearly valid (decimal, sign, fraction, E/D exponent, & octal, &H hex, blanks around, empty = 0; strings bare, quoted, with commas inside quotes, padded), clearly invalid (letters, two numbers, out of Integer range, 256 characters) and structural (too few / too many fields); up to two bad replies precede an accepted one; the event sequence Input(prompt? , caps) {REDO, same Input}* and everything printed afterwards must equal RefBASIC's; distinct = distinct API/event log fingerprint"
     }
     fn assumptions(&self) -> Vec<&'static str> {
         vec![
